@@ -55,10 +55,13 @@ func TestC15(t *testing.T) {
 	c15EnvFaults(t, rec)
 	c15OracleFeed(t, rec)
 	c15EnvFaultsOther(t, rec)
+	c15Rewards(t, rec)
+	c15LendDayBoundary(t, rec)
 	rec.SetExhaustive(false)
 	rec.Floor("crash_points_injected", 200)
 	rec.Floor("explored_blocks_begin", 2)
 	rec.Floor("fork_validation_ok", 2)
+	rec.Floor("lend_day_boundaries_crossed", 2)
 }
 
 // c15EnvFaults applies the environment faults the statement lists to reachable
